@@ -199,6 +199,77 @@ func vpH_C01_subsecond_durations() {
 	vpReach("end")
 }
 
+// every type name of the vocabulary (not only the canonical one of each Go type) with one further
+// property, top level and nested in an item position and in a list: the decoder's dispatch on names
+func vpH_C01_every_name() {
+	c := vpVocabConsts[vpChoice(len(vpVocabConsts))]
+	spec, ok := vpSpec[c.Value]
+	if !ok {
+		vpReach("end")
+		return
+	}
+	ti := vpTypeIndex(spec.goType)
+	fields := vpFieldsOf(ti)
+	f := 2 + vpChoice(len(fields)-2)
+	if vpShapes(fields[f].Kind) == 0 {
+		vpReach("end")
+		return
+	}
+	x := vpNew(ti)
+	if l, ok := x.(*Link); ok {
+		l.Type = c.Value
+	} else {
+		_ = OnObject(x, func(o *Object) error { o.Type = c.Value; return nil })
+	}
+	vpSetField(x, 0, 0, 'i')
+	vpSetField(x, f, 0, 'a')
+	cell := string(c.Value) + "." + fields[f].Name
+	want := vpCloneItem(x)
+	vpC01Normal(want, ti, f)
+	where := vpChoice(3)
+	var enc Item = x
+	switch where {
+	case 1:
+		enc = &Object{ID: "https://h.ex/outer", Type: NoteType, Icon: x}
+		cell += "/nested"
+	case 2:
+		enc = &Object{ID: "https://h.ex/outer", Type: NoteType, Tag: ItemCollection{IRI("https://h.ex/first"), x}}
+		cell += "/in-list"
+	}
+	b, err := vpMarshalItem(enc)
+	vpAssert("every-name/encode/"+cell, err == nil && len(b) > 0)
+	if len(b) == 0 {
+		return
+	}
+	y, err := UnmarshalJSON(b)
+	vpAssert("every-name/decode/"+cell, err == nil && y != nil)
+	if y == nil {
+		return
+	}
+	if where > 0 {
+		o, ok := y.(*Object)
+		vpAssert("every-name/outer/"+cell, ok && o != nil)
+		if !ok || o == nil {
+			return
+		}
+		if where == 1 {
+			y = o.Icon
+		} else {
+			vpAssert("every-name/list-keeps-both/"+cell, len(o.Tag) == 2)
+			if len(o.Tag) != 2 {
+				return
+			}
+			y = o.Tag[1]
+		}
+		vpAssert("every-name/present/"+cell, y != nil)
+		if y == nil {
+			return
+		}
+	}
+	vpDiffItems("every-name/roundtrip/"+cell, want, y, nil)
+	vpReach("end")
+}
+
 func vpH_C01_Object()                { vpC01Cell(vpTypeIndex("Object")) }
 func vpH_C01_Actor()                 { vpC01Cell(vpTypeIndex("Actor")) }
 func vpH_C01_Activity()              { vpC01Cell(vpTypeIndex("Activity")) }
